@@ -48,7 +48,8 @@ pub fn match_end_non_recursive<D: Doc>(
   goal: &Pattern<D::Lang>,
   candidate: Node<D>,
 ) -> Option<usize> {
-  let mut end = ComputeEnd(0);
+  // nothing matched yet: the matched prefix is empty and ends where the candidate starts
+  let mut end = ComputeEnd(candidate.range().start);
   match match_node_impl(&goal.node, &candidate, &mut end, &goal.strictness) {
     MatchOneNode::MatchedBoth => Some(end.0),
     _ => None,
